@@ -120,6 +120,21 @@ def _views(ctx, res, prob, inds, n, o, maxtag, lastpop):
     cs = res.costs()
     ctx.check('costs-listing', True if (len(cs) != o or any(len(c) != n for c in cs))
               else Not(perm_match([[cs[k][i] for k in range(o)] for i in range(n)], lambda x: x.costs)))
+    # index-based listings: [indices, values per goal / parameter] of one generation, recording order
+    for tag, members in ((-1, lastpop), (1, [x for x in inds if x.population_id == 1])):
+        kw = {} if tag == -1 else {'population_id': tag}
+        g_all = res.goal_on_index(**kw)
+        ctx.check('goal-on-index-all-goals', True if len(g_all) != 1 + o else Or(list(g_all[0]) != list(range(len(members))),
+                                                                                 *[_neq(g_all[1 + k], [x.costs[k] for x in members]) for k in range(o)]))
+        g_one = res.goal_on_index(name='f%d' % (o - 1), **kw)
+        ctx.check('goal-on-index-named-goal', True if len(g_one) != 2 else Or(list(g_one[0]) != list(range(len(members))),
+                                                                              _neq(g_one[1], [x.costs[o - 1] for x in members])))
+        p_all = res.parameter_on_index(**kw)
+        ctx.check('parameter-on-index-all-parameters', True if len(p_all) != 3 else Or(list(p_all[0]) != list(range(len(members))),
+                                                                                       _neq(p_all[1], [x.vector[0] for x in members]),
+                                                                                       _neq(p_all[2], [x.vector[1] for x in members])))
+        p_one = res.parameter_on_index(name='x1', **kw)
+        ctx.check('parameter-on-index-named-parameter', True if len(p_one) != 2 else _neq(p_one[1], [x.vector[1] for x in members]))
     pi = res.pareto_individuals()
     want = [x for x in lastpop if _front1(x)]
     ctx.check('pareto-individuals', [x.id for x in pi] != [x.id for x in want])
